@@ -32,6 +32,7 @@ type Frame struct {
 	visits    map[*ssa.BasicBlock]int
 	forks     map[ssa.Instruction]int
 	// merge arm bookkeeping
+	goFrame bool // frame of a deferred goroutine run while its spawner waits
 	stopAt  *ssa.BasicBlock
 	stopped bool
 }
@@ -107,6 +108,8 @@ type State struct {
 	par           *ParState
 	nonReplayable bool
 	noBlock       bool
+	pendingGo     []*Deferred
+	goDepth       int
 	lockOwner     map[string]int // vPar: 1 + thread that holds the mutex
 	fmtArgs   []Value
 	lastTokOperands []Value
